@@ -91,6 +91,8 @@ type aState struct {
 	start, end int
 	known      []tri
 	retained   []bool // known because a refresh that offered nothing left it alone
+	silent     []bool // "maybe" because its wallet offered nothing while another wallet did
+	emptied    []bool // "maybe" because the local wallets offered nothing (no retain rule stated for them)
 }
 
 type vEntry struct {
@@ -173,7 +175,7 @@ func judge(h *history, out *sim.Outcome) *simrt.Violation {
 	}
 
 	// ---- account states ----
-	A := []*aState{{start: -1, end: -1, known: make([]tri, n), retained: make([]bool, n)}}
+	A := []*aState{{start: -1, end: -1, known: make([]tri, n), retained: make([]bool, n), silent: make([]bool, n), emptied: make([]bool, n)}}
 	aOfOp := map[int]*aState{}
 	for _, o := range h.ops {
 		if o.Kind == "vrefresh" {
@@ -199,7 +201,7 @@ func judge(h *history, out *sim.Outcome) *simrt.Violation {
 			}
 		}
 		prev := A[len(A)-1]
-		st := &aState{start: o.CallStep, end: endOf(o.Idx), known: make([]tri, n), retained: make([]bool, n)}
+		st := &aState{start: o.CallStep, end: endOf(o.Idx), known: make([]tri, n), retained: make([]bool, n), silent: make([]bool, n), emptied: make([]bool, n)}
 		if total == 0 {
 			if len(offers) > 0 {
 				out.Probes["account-refresh-offered-nothing"]++
@@ -214,6 +216,7 @@ func judge(h *history, out *sim.Outcome) *simrt.Violation {
 					}
 				case prev.known[x] != no:
 					st.known[x] = maybe
+					st.emptied[x] = prev.known[x] == yes
 				}
 			}
 		} else {
@@ -229,6 +232,7 @@ func judge(h *history, out *sim.Outcome) *simrt.Violation {
 					}
 				case prev.known[x] != no:
 					st.known[x] = maybe
+					st.silent[x] = prev.known[x] == yes
 					out.Probes["obs:wallet-silent-while-others-answer"]++
 				}
 				if st.known[x] == yes {
@@ -499,6 +503,15 @@ func judge(h *history, out *sim.Outcome) *simrt.Violation {
 			if k == no && ok && filter(e.rec, l.Epoch) == yes && h.everOffered(x) {
 				out.Probes["unconfigured-active-account-excluded"]++
 				out.Nontrivial = true
+			}
+			if k == maybe && ok && e.sure && filter(e.rec, l.Epoch) == yes && (!byIdx || wanted[e.rec.Index]) {
+				kept := map[bool]string{true: "kept", false: "dropped"}[seen[x]]
+				if A[alo].silent[x] {
+					out.Probes["obs:accounts-of-silent-wallet-"+kept]++
+				}
+				if A[alo].emptied[x] {
+					out.Probes["obs:local-wallets-gone-accounts-"+kept]++
+				}
 			}
 			if k != yes || !ok {
 				continue
